@@ -29,6 +29,17 @@ CLAIMED = {
         "technique": "Lean 4 proof (multimap spec laws) + differential correspondence against the real MultimapTable API",
         "design_ref": "DESIGN.md §6 C09",
     },
+    "C18": {
+        "text": "Lean theorems about the zipper specification CursorSpec for every built-in key type, map, bound and key: lower/upper bound put "
+                "the gap exactly where a sorted map would, peek/next/prev return and step over the neighbours, insert_before/insert_after are "
+                "accepted iff the key is strictly between the gap's neighbours and then the map equals Spec.insert with the gap after/before the "
+                "new entry, remove_next/prev equal Spec.remove of the neighbour, and a whole session (any batching) equals the fold of the "
+                "corresponding Spec edits. The real CursorMut/Cursor API is compared answer by answer and by committed contents with the "
+                "spec (separate harness crate built with the experimental_cursor feature).",
+        "note": NOTE + "; tree-level splice of buffered insert runs is not modelled (held to the spec by the correspondence run)",
+        "technique": "Lean 4 proof (zipper cursor laws) + differential correspondence against the real cursor API",
+        "design_ref": "DESIGN.md §6 C18",
+    },
     "C15": {
         "text": "Lean theorems over ALL key-type descriptors (nested arbitrarily) and all valid encodings: the comparator is a total preorder "
                 "respecting equality (pairs and triples), the separator of a<b is a valid encoding s with a<=s<b and len(s)<=len(a), branch "
